@@ -94,6 +94,9 @@ func Harness_C07_Create() {
 	buf := gen.JSON(c.Request)
 	switch m {
 	case 1:
+		// whitespace around the request is part of the operation's bytes and counts towards its size
+		pads := []string{"", " ", "\n", "\r\n\t"}
+		buf = []byte(pads[verifrt.Choose("leading-space", 4)] + string(buf) + pads[verifrt.Choose("trailing-space", 4)])
 		var ok bool
 		p.MaxOperationSize, ok = around("size-delta", len(buf))
 		want = ok
